@@ -761,7 +761,10 @@ class Interp:
                         if r[1][0][0] != "s":
                             raise Fail("type", "map over tuple name")
                         out.append((r[1][0][1], r[1][1]))     # PIN: duplicate result names are kept
-                    # PIN: a non-list result drops the field
+                    else:
+                        # manual: "The result should be a two item list". (Pinned as "drops the field" until the
+                        # implementation, which refuses every other wrong result, was repaired to refuse this one too.)
+                        raise Fail("type", "map over tuple result")
                 return ("t", out)
             buf = []
             for c in target[1]:
